@@ -47,6 +47,15 @@ def main():
                 viol = [l for l in r.stdout.splitlines() if l.startswith("VIOLATION")]
                 det["results"].append({"check": c, "exit": r.returncode, "violation_lines": len(viol), "wall_s": round(time.time() - t, 1), "tail": r.stdout.strip().splitlines()[-1:]})
             det["caught"] = any(x["exit"] == 1 and x["violation_lines"] > 0 for x in det["results"])
+            if meta.get("neutralised_by_fix") and not det["caught"]:
+                # a later "fix:" commit made this change harmless (the property holds with it applied): its own demo must agree
+                demo = sh(f"/venv/bin/python {d}/demo.py", env=env)
+                det["neutralised_by_fix"] = meta["neutralised_by_fix"]
+                det["demo_exit_with_change"] = demo.returncode
+                json.dump(det, open(os.path.join(d, "detection.json"), "w"), indent=1)
+                print(name, "NEUTRALISED (demo exit %d)" % demo.returncode if demo.returncode == 0 else "MISSED (demo still fails)", flush=True)
+                summary.append((name, demo.returncode == 0))
+                continue
             json.dump(det, open(os.path.join(d, "detection.json"), "w"), indent=1)
             print(name, "CAUGHT" if det["caught"] else "MISSED", [(x["check"], x["exit"]) for x in det["results"]], flush=True)
             summary.append((name, det["caught"]))
